@@ -458,6 +458,11 @@ fn plan_base(prop: &str) -> Vec<Item> {
             v.push(it("pipe_in_items", "pool=2,n=2,pat=1,conc=1", Some(1), 2));
             v.push(it("pipe_in_items", "pool=1,n=2,pat=1,conc=0,pin=1", Some(2), 3));
             v.push(it("pipe_in_items", "pool=1,n=1,pat=9,conc=0,dropmid=1", Some(2), 3));
+            for n in [0, 1, 2] {
+                v.push(it("pipe_in_items", &format!("pool=1,n={},pat=1,conc=0,late=1", n), Some(2), 3));
+            }
+            v.push(it("pipe_in_items", "pool=1,n=2,pat=0,conc=1,late=1", Some(1), 2));
+            v.push(it("pipe_in_items", "pool=2,n=1,pat=1,conc=2,late=1", Some(1), 2));
             v.push(it("pipe_in_items", "pool=2,n=1,pat=9,conc=0,dropmid=1", Some(1), 2));
             v.push(it("pipe_in_items", "pool=1,n=1,pat=1,conc=2,pin=1", Some(2), 3));
             v.push(it("pipe_in_items", "pool=2,n=2,pat=2,conc=0,pin=1", Some(1), 2));
@@ -482,6 +487,11 @@ fn plan_base(prop: &str) -> Vec<Item> {
                 v.push(it("pipe_rewake", &format!("pool=1,what={}", what), Some(2), 3));
                 v.push(it("pipe_rewake", &format!("pool=2,what={}", what), Some(1), 2));
             }
+            for d in [1, 2, 3, 4, 5] {
+                v.push(it("pipe_partial", &format!("pool=1,d={},r=1", d), Some(if d <= 2 { 2 } else { 1 }), if d <= 3 { 3 } else { 2 }));
+            }
+            v.push(it("pipe_partial", "pool=1,d=5,r=2", Some(1), 2));
+            v.push(it("pipe_partial", "pool=2,d=3,r=1", Some(1), 2));
             v.push(it("pipe_steal", "pool=1", Some(2), 3));
             v.push(it("pipe_steal", "pool=2", Some(1), 2));
             v.push(it("pipe_out", "pool=1,n=4,d=3,pat=2", None, 2));
@@ -612,7 +622,7 @@ pub fn owners(scenario: &str, part: &str) -> Vec<&'static str> {
         "excl_drop" => vec!["C07", "C01", "C04"],
         "order_ctx" => vec!["C02", "C03"],
         "pipe_in_items" => vec!["C11", "C03"],
-        "pipe_out" | "pipe_steal" | "pipe_rewake" => vec!["C12"],
+        "pipe_out" | "pipe_steal" | "pipe_rewake" | "pipe_partial" => vec!["C12"],
         "pipe_drop_output" => vec!["C16"],
         "f2_dormant_race" | "desync_then_sync" | "stale_entry" => vec!["C03"],
         "prog" => {
